@@ -248,6 +248,10 @@ def run_real(c, ctx):
             if not c['to_df'] and r.last_ds is not res: return {'err': 'last_ds', 'msg': 'Runner.last_ds is not the returned dataset'}
     except Exception as ex:
         return {'err': type(ex).__name__, 'msg': str(ex)[:300]}
+    if not c['to_df']:
+        import xarray as xr
+        if isinstance(res, xr.DataArray):       # a function returning one named DataArray gives one: read it as a Dataset
+            da = res; res = da.to_dataset(); res.attrs = dict(da.attrs)
     if c['to_df']:
         return {'df': labelled.canon_df(res), 'perm_seed': seed, 'adv_order': list(adv.order) if adv else None,
                 'oracle': labelled.oracle_df(labelled.canon_df(res), sw, desc, sweeps.n_settings(sw))}
